@@ -60,6 +60,12 @@ CHECKS = {
    text="Stream facet: the real sourcemapx.Filter is driven as a stream transducer: synthetic streams of code bytes (newlines, multi-byte UTF-8, control bytes other than the magic byte) interleaved with position and identifier hints produced by the real Hint.Pack/WriteTo are pushed through it under enumerated and rapid-generated chunkings into Write calls that never split a hint, with a downstream writer that fails or short-writes at every byte; delivered bytes and mappings must equal an independent position model over the unchunked stream (a prefix of it under downstream faults), and never contain the hint byte. Position facet: generated programs compiled by the tree's CLI, plain and minified: no hint byte in the output, every mapping inside the generated file and inside an existing line of the named original file, and in the simulated event loop - also after the calling function was suspended and resumed - the JavaScript stack frames of marker calls at known Go lines resolve through the map to that file and line.",
    note="Trusted: the position model, V8's stack format, esbuild. Column units are not asserted (the property does not fix them); for stack frames only file and line are compared. Re-chunking the compiler's own raw hinted streams is covered only indirectly (same Filter code).",
    technique="deterministic simulation of the writer pipeline (seeded chunking schedules and downstream write faults) against a reference position model, plus simulated runs resolving stack frames through emitted maps"),
+ "C17": dict(
+   engine="govl",
+   category="exploration", design_ref="DESIGN.md §4 C17",
+   text="The real compiler and build.Session are compiled with every range-over-map statement of GopherJS's own packages rewritten (mechanically, with go/types, from the current working tree) to iterate keys in a canonical order permuted by a seeded tape, so map iteration order inside the compiler is a replayable choice; the session's XContext is wrapped so that file lists arrive permuted; sessions build other main packages first; minify on and off. For a corpus of generated generic-heavy multi-package programs, multi-main programs sharing a generic library and seqgen programs, sha256 of out.js and of the source map must equal the plain build of the same sources and options under every tape, permutation, history and all at once. A statistical control group builds with the unmodified CLI in fresh OS processes under Go's own map randomisation.",
+   note="Trusted: the range-site rewrite preserves semantics other than order (keys deleted during the loop are skipped, as Go does); canonical key descriptors (ties and unknown key kinds are counted in evidence). Known finding F3 (two mains of one module sharing a generic package built in one session) is attributed by a narrow trigger on the history dimension.",
+   technique="deterministic simulation of the compiler's own nondeterminism (seeded map-iteration order via source-level seam, file listing order, session history) with output-hash equality"),
 }
 
 def main():
